@@ -459,4 +459,172 @@ def applyAcc (idx : Nat) (a : AccIn) : Stmt :=
 
 def accOrig (a : AccIn) : Stmt := .store1 a.arr a.index (subst a.hole a.index a.rhs)
 
+
+/-! ## Reference2ArrayRangeTrans: `a` → `a(lb:ub:1)` with the declared bounds -/
+
+/-- value of element `k` (0-based, array element order) of the whole rank-1 array -/
+def Vec.at (v : Vec) (σ : Store) (k : Int) : Int := σ (v.arr, v.lb + k, 0)
+def Vec.count (v : Vec) : Nat := trip v.lb v.ub 1
+/-- `Reference2ArrayRangeTrans.apply` on a rank-1 array with declared bounds -/
+def ref2range (v : Vec) : Sec := ⟨v.arr, .r1, .lit v.lb, .lit v.ub, .lit 1⟩
+
+/-! ## DOT_PRODUCT with sliced arguments: the operands are sections `a(:)`, `m(:,j)` over the full first
+dimension; the loop runs over the declared bounds of the first operand and indexes BOTH with `i` -/
+
+def dotCodeS (res i : Nat) (s1 s2 : Sec) : Stmt :=
+  .seq (.assign res (.lit 0))
+    (.loop i s1.lo s1.hi (.lit 1)
+      (.assign res (.bin .add (.var res) (.bin .mul (s1.ref (.var i)) (s2.ref (.var i))))))
+
+def dot2codeS (res i : Nat) (s1 s2 : Sec) (s : Asg) : Stmt := .seq (dotCodeS res i s1 s2) s.stmt
+
+def dotValS (s1 s2 : Sec) (σ : Store) : Int :=
+  foldRed .add (fun k => s1.at σ k * s2.at σ k) (fun _ => 1) (s1.count σ) 0
+
+def execDotOrigS (res : Nat) (s1 s2 : Sec) (s : Asg) (σ : Store) : Store :=
+  exec s.stmt (σ.set (res, 0, 0) (dotValS s1 s2 σ))
+
+/-! ## matrix-matrix MATMUL -/
+
+/-- `Matmul2CodeTrans._apply_matrix_matrix`:
+`do j = lb2(B), ub2(B); do i = lb1(A), ub1(A); r(i,j) = 0.0; do ii = lb2(A), ub2(A); r(i,j) = r(i,j) + A(i,ii)*B(ii,j)` -/
+def matmatCode (i j ii : Nat) (r a b : Mat) : Stmt :=
+  .loop j (.lit b.lb2) (.lit b.ub2) (.lit 1)
+    (.loop i (.lit a.lb1) (.lit a.ub1) (.lit 1)
+      (.seq (.store2 r.arr (.var i) (.var j) (.lit 0))
+        (.loop ii (.lit a.lb2) (.lit a.ub2) (.lit 1)
+          (.store2 r.arr (.var i) (.var j)
+            (.bin .add (.idx2 r.arr (.var i) (.var j))
+              (.bin .mul (.idx2 a.arr (.var i) (.var ii)) (.idx2 b.arr (.var ii) (.var j))))))))
+
+/-- element (p, q) (0-based) of MATMUL(A, B) -/
+def matmatVal (a b : Mat) (σ : Store) (p q : Int) : Int :=
+  foldRed .add (fun k => σ (a.arr, a.lb1 + p, a.lb2 + k) * σ (b.arr, b.lb1 + k, b.lb2 + q)) (fun _ => 1)
+    (trip a.lb2 a.ub2 1) 0
+
+/-- columns `0 … n-1` of the result written (values computed in the initial store `σ`) -/
+def matmatCols (r a b : Mat) (σ : Store) : Nat → Store
+  | 0 => σ
+  | q+1 => writeVals (fun p => (r.arr, r.lb1 + p, r.lb2 + q)) (fun p => matmatVal a b σ p q)
+      (trip a.lb1 a.ub1 1) (matmatCols r a b σ q)
+
+/-- **Fortran semantics of `r = MATMUL(A, B)`** (result distinct from the operands) -/
+def execMatmat (r a b : Mat) (σ : Store) : Store := matmatCols r a b σ (trip b.lb2 b.ub2 1)
+
+def matmatAligned (r a b : Mat) : Bool :=
+  decide (r.lb1 = a.lb1) && decide (r.lb2 = b.lb2) && decide (b.lb1 = a.lb2) &&
+  decide (b.ub1 - b.lb1 = a.ub2 - a.lb2)
+
+/-! ## rank-2 array assignment `m(l1:h1:s1, l2:h2:s2) = E` → loop nest (outer loop = 2nd dimension) -/
+
+structure Sec2 where
+  arr : Nat
+  lo1 : Expr
+  hi1 : Expr
+  st1 : Expr
+  lo2 : Expr
+  hi2 : Expr
+  st2 : Expr
+  deriving DecidableEq, Repr, Inhabited
+
+def Sec2.svars (s : Sec2) : List Nat :=
+  C06.vars s.lo1 ++ (C06.vars s.hi1 ++ (C06.vars s.st1 ++ (C06.vars s.lo2 ++ (C06.vars s.hi2 ++ C06.vars s.st2))))
+
+/-- element (k1, k2) of the section -/
+def Sec2.at (s : Sec2) (σ : Store) (k1 k2 : Int) : Int :=
+  σ (s.arr, eval s.lo1 σ + k1 * eval s.st1 σ, eval s.lo2 σ + k2 * eval s.st2 σ)
+
+inductive AExpr2 where
+  | sc (e : Expr)
+  | sec (s : Sec2)
+  | un (op : UnOp) (e : AExpr2)
+  | bin (op : BinOp) (a b : AExpr2)
+  deriving DecidableEq, Repr, Inhabited
+
+def AExpr2.secs : AExpr2 → List Sec2
+  | .sc _ => []
+  | .sec s => [s]
+  | .un _ e => e.secs
+  | .bin _ a b => a.secs ++ b.secs
+
+def AExpr2.svars : AExpr2 → List Nat
+  | .sc e => C06.vars e
+  | .sec s => s.svars
+  | .un _ e => e.svars
+  | .bin _ a b => a.svars ++ b.svars
+
+def AExpr2.allvars : AExpr2 → List Nat
+  | .sc e => C06.vars e
+  | .sec s => s.arr :: s.svars
+  | .un _ e => e.allvars
+  | .bin _ a b => a.allvars ++ b.allvars
+
+def AExpr2.evalAt : AExpr2 → Store → Int → Int → Int
+  | .sc e, σ, _, _ => eval e σ
+  | .sec s, σ, k1, k2 => s.at σ k1 k2
+  | .un op e, σ, k1, k2 => evalUn op (e.evalAt σ k1 k2)
+  | .bin op a b, σ, k1, k2 => evalBin op (a.evalAt σ k1 k2) (b.evalAt σ k1 k2)
+
+structure AAIn2 where
+  lhs : Sec2
+  rhs : AExpr2
+  deriving DecidableEq, Repr, Inhabited
+
+/-- columns `0 … n-1` of the lhs section stored; all values come from the initial store `σ` -/
+def aa2Cols (a : AAIn2) (σ : Store) : Nat → Store
+  | 0 => σ
+  | q+1 => writeVals
+      (fun p => (a.lhs.arr, eval a.lhs.lo1 σ + p * eval a.lhs.st1 σ, eval a.lhs.lo2 σ + q * eval a.lhs.st2 σ))
+      (fun p => a.rhs.evalAt σ p q) (trip (eval a.lhs.lo1 σ) (eval a.lhs.hi1 σ) (eval a.lhs.st1 σ))
+      (aa2Cols a σ q)
+
+/-- **Fortran semantics of the rank-2 array assignment** -/
+def execAA2 (a : AAIn2) (σ : Store) : Store :=
+  aa2Cols a σ (trip (eval a.lhs.lo2 σ) (eval a.lhs.hi2 σ) (eval a.lhs.st2 σ))
+
+def sameRanges2 (l s : Sec2) : Bool :=
+  decide (s.lo1 = l.lo1) && decide (s.hi1 = l.hi1) && decide (s.st1 = l.st1) &&
+  decide (s.lo2 = l.lo2) && decide (s.hi2 = l.hi2) && decide (s.st2 = l.st2)
+
+def overlapOK2 (a : AAIn2) : Bool :=
+  a.rhs.secs.all (fun s => s.arr != a.lhs.arr || sameRanges2 a.lhs s) &&
+  !(a.rhs.svars ++ a.lhs.svars).contains a.lhs.arr
+
+def strideOK2 (l : Sec2) (e : AExpr2) : Bool :=
+  e.secs.all (fun s => decide (s.st1 = l.st1) && decide (s.st2 = l.st2))
+
+/-- `ArrayAssignment2LoopsTrans.validate` (fixed) for rank-2 sections -/
+def validateAA2 (a : AAIn2) : Option Refusal :=
+  if !strideOK2 a.lhs a.rhs then some .stride
+  else if !overlapOK2 a then some .overlap
+  else none
+
+/-- index expression for one dimension (`same_range` → loop variable, else offset) -/
+def idxExpr' (idx : Nat) (llo lst slo sst : Expr) : Expr :=
+  if slo = llo ∧ sst = lst then .var idx else .bin .add (.var idx) (.bin .sub slo llo)
+
+/-- after expanding the 2nd range: a rank-1 (`row`) section of every rank-2 section -/
+def Sec2.row (s : Sec2) (idx2 : Nat) (l : Sec2) : Sec :=
+  ⟨s.arr, .row (idxExpr' idx2 l.lo2 l.st2 s.lo2 s.st2), s.lo1, s.hi1, s.st1⟩
+
+def AExpr2.rows (idx2 : Nat) (l : Sec2) : AExpr2 → AExpr
+  | .sc e => .sc e
+  | .sec s => .sec (s.row idx2 l)
+  | .un op e => .un op (e.rows idx2 l)
+  | .bin op a b => .bin op (a.rows idx2 l) (b.rows idx2 l)
+
+/-- the rank-1 assignment that is left inside the outer loop -/
+def AAIn2.inner (idx2 : Nat) (a : AAIn2) : AAIn :=
+  { lhs := a.lhs.row idx2 a.lhs, rhs := a.rhs.rows idx2 a.lhs, badCall := false, allowOverlap := false }
+
+/-- `ArrayAssignment2LoopsTrans.apply` on a rank-2 section: outer loop over the 2nd range (`idx2`),
+inner loop over the 1st range (`idx1`) -/
+def applyAA2 (idx2 idx1 : Nat) (a : AAIn2) : Stmt :=
+  .loop idx2 a.lhs.lo2 a.lhs.hi2 a.lhs.st2 (applyAA idx1 (a.inner idx2))
+
+def transAA2 (idx2 idx1 : Nat) (a : AAIn2) : Except Refusal Stmt :=
+  match validateAA2 a with
+  | some r => .error r
+  | none => .ok (applyAA2 idx2 idx1 a)
+
 end C06
